@@ -8,8 +8,8 @@ from props import rt
 PID = "C14"
 LEVEL = "proof"
 MODULE = "Sigc.Props.C14"
-EXTRA_MODULES = ("Sigc.Props.Refine", "Sigc.Props.SpecK", "Sigc.Props.SpecProps",)   # refinement P ⊑ S', S' ≡ S on runs clear of the known findings, the statements read off S
-REQUIRED = ["Sigc.C14.functor_owned_handle_keeps_list", "Sigc.C14.collect_drops_unheld_owned_handle_wf", "Sigc.C14.run_leaves_owned_handles_held", "Sigc.C14.delG_cases", "Sigc.Refine.refines", "Sigc.Refine.runProgram_refines", "Sigc.SpecK.model_refines_pure_spec"]
+EXTRA_MODULES = ("Sigc.Props.Refine", "Sigc.Props.Fuel", "Sigc.Props.SpecK", "Sigc.Props.SpecProps",)   # refinement P ⊑ S', S' ≡ S on runs clear of the known findings, the statements read off S
+REQUIRED = ["Sigc.C14.functor_owned_handle_keeps_list", "Sigc.C14.collect_drops_unheld_owned_handle_wf", "Sigc.C14.run_leaves_owned_handles_held", "Sigc.C14.delG_cases", "Sigc.Fuel.terminates", "Sigc.Fuel.runProgram_fuel_independent", "Sigc.Refine.refines", "Sigc.Refine.runProgram_refines", "Sigc.SpecK.model_refines_pure_spec"]
 TRUSTED = rt.TRUSTED_RT
 ASSUMPTIONS = rt.ASSUMPTIONS_RT + []
 PARTIAL = []
